@@ -70,7 +70,7 @@ def variant_term(src, t, vars_, cfg, depth=0):
     if k == 0 and vars_:
         return src.pick(vars_)
     if t[0] == 'f':
-        if k == 1 and vars_:
+        if (k == 1 or (k == 3 and depth == 0 and len(t[2]) > 1)) and vars_:
             v = src.pick(vars_)
             return ('f', t[1], tuple(v for _ in t[2]))                 # one variable in every argument position
         return ('f', t[1], tuple(variant_term(src, a, vars_, cfg, depth + 1) if src.n(2) else a for a in t[2]))
@@ -147,6 +147,10 @@ def gen_goal(src, vars_, preds, cfg):
     k = src.n(20)
     if cfg.eq_goals and k in (16, 17):
         a = gen_term(src, vars_, cfg)
+        if a[0] != 'f' and src.n(2):
+            # compound operands are where unifiability is not decided position by position
+            name, n = src.pick(cfg.functors)
+            a = ('f', name, tuple(gen_term(src, vars_, cfg, 1) for _ in range(n)))
         # the second operand is often a variant of the first (same functor, sub-terms replaced by variables or
         # other terms, a variable repeated): near-misses are where = and \\= can go wrong
         b = variant_term(src, a, vars_, cfg) if src.n(2) else gen_term(src, vars_, cfg)
